@@ -18,10 +18,10 @@ Starts ==
     [] Family = "T4"  -> TaggedDags(4)
     [] Family = "T5"  -> TaggedDags(5)
     [] Family = "T5r" -> LET ds == RandomSetOfSubsets(RndK, 5, FwdPairs(5))
-                             ls == RandomSetOfSubsets(RndK, 2, 1..5)
+                             ls == RandomSetOfSubsets(IF RndK > 16 THEN 16 ELSE RndK, 2, 1..5)
                          IN {TD(1..5, d, l) : d \in ds, l \in ls}
     [] Family = "T6r" -> LET ds == RandomSetOfSubsets(RndK, 7, FwdPairs(6))
-                             ls == RandomSetOfSubsets(RndK, 2, 1..6)
+                             ls == RandomSetOfSubsets(IF RndK > 32 THEN 32 ELSE RndK, 2, 1..6)
                          IN {TD(1..6, d, l) : d \in ds, l \in ls}
     \* ADMGs with a set of their nodes additionally tagged latent (evans_simplify(G, latents=L))
     [] Family = "G3"  -> {[ToLV(G) EXCEPT !.lat = @ \cup L] : G \in AllADMG(3), L \in SUBSET (1..3)}
